@@ -233,4 +233,62 @@ for _auto in (False, True):
                bounds='one expired farm with symbolic budget, one live farm on another LP, one position; refund transfer fails or not', covers=['done', 'done_refund_fails', 'done_refund_paid'],
                replay=_replay_close_refund(_auto))(_ob_close_refund_fails(_auto))
 
+
+# ---------------------------------------------------------------- two expired farms of one owner, one refund cannot be paid
+
+def _replay_two_refunds(m):
+    ep = m['epoch']
+    return {'now_s': m['now_s'], 'counters': {'farm': 3},
+            'farms': [('m-x', 'fowner', LP1, 'uusd', m['funded'], m['claimed'], 1, 1, 3), ('m-z', 'fowner', LP1, 'uom', m['funded_z'], m['claimed_z'], 1, 1, 3)],
+            'positions': [('u-a', LP1, 77, DAY, 'alice', None)],
+            'mints': [('farm_manager', [('uom', m['funded_z'] - m['claimed_z']), (LP1, 77)]), ('dave', [('uatom', m['reward']), ('uom', 1000)])],
+            'config': {'create_farm_fee': {'denom': 'uom', 'amount': '1000'}, 'max_concurrent_farms': 3},
+            'txs': [('dave', c11._farm_msg('create', params=c11._params_json('uatom', m['reward'], ep + 1, ep + 5)), [('uatom', m['reward']), ('uom', 1000)])]}
+
+
+@obligation('C20', 'F3.two_expired_farms_one_refund_unpayable', entries=['execute', 'create_farm', 'close_farms', 'reply'], kind='S',
+            statement='a creation auto-closes TWO expired farms of the same owner paying different denoms; the contract cannot pay the remainder of the first (it does not hold '
+                      'the tokens): the creation still succeeds, both farms are removed, and the refund of the OTHER farm is paid in full -- the tolerated failure affects nothing else',
+            bounds='two expired farms with symbolic budgets (uusd: unpayable, uom: payable), a new farm paying a third denom; symbolic time', covers=['done'],
+            replay=fm_replay(lambda m: _replay_two_refunds(m)))
+def f3_two(I):
+    I.set_hint(dict(c11.HINT, funded=10 ** 6, claimed=10, funded_z=10 ** 6, claimed_z=10, reward=10 ** 6))
+    now = I.sym('now_s', hi=U64 // NS - 2 * YEAR)
+    ep = I.sym('epoch', lo=60, hi=10 ** 9)
+    set_epoch(I, ep, now_s=now)
+    set_ownership(I, FM, 'creator')
+    I.world.store(FM)['farm_counter'] = 3
+    fm_config(I, fee=coin_v('uom', 1000), max_concurrent=3)
+    b = bank_of(I)
+    funded = I.sym('funded', lo=1, hi=U128 // 4)
+    claimed = I.sym('claimed', hi=U128)
+    I.assume(claimed < funded)
+    fz = I.sym('funded_z', lo=1, hi=U128 // 4)
+    cz = I.sym('claimed_z', hi=U128)
+    I.assume(cz < fz)
+    put_farm(I, farm('m-x', 'fowner', LP1, 'uusd', funded, claimed, 1, 1, 3))      # expired; the contract holds NO uusd: its refund cannot be paid
+    put_farm(I, farm('m-z', 'fowner', LP1, 'uom', fz, cz, 1, 1, 3))                # expired; payable
+    put_position(I, position('u-a', LP1, 77, DAY, 'alice', None))
+    b.set(FM, 'uom', simp(fz - cz))
+    b.set(FM, LP1, 77)
+    reward = I.sym('reward', lo=1000, hi=U128 // 4)
+    b.set('dave', 'uatom', reward)
+    b.set('dave', 'uom', 1000)
+    ch = Chain(I, CONTRACTS_FM)
+    pre = b.snapshot()
+    st, _ = ch.execute('dave', FM, manage_farm('Create', params=farm_params(LP1, coin_v('uatom', reward), simp(ep + 1), simp(ep + 5))),
+                       [coin_v('uatom', reward), coin_v('uom', 1000)])
+    I.observe('status', 'ok' if st == 'ok' else 'err')
+    observe_farm(I, 'm-x')
+    observe_farm(I, 'm-z')
+    observe_balances(I, b, [('fowner', 'uusd'), ('fowner', 'uom'), (FM, 'uusd'), (FM, 'uom'), (FM, 'uatom'), (FM, LP1)])
+    I.cover('done')
+    I.check('close_not_blocked_by_failing_refund', st == 'ok')
+    if st != 'ok':
+        return
+    I.check('both_expired_farms_removed', get_farm(I, 'm-x') is None and get_farm(I, 'm-z') is None)
+    I.check('payable_refund_of_the_other_farm_paid_in_full', smt.Eq(b.get('fowner', 'uom'), pre.get('fowner', 'uom') + fz - cz))
+    I.check('unpayable_refund_moves_nothing', smt.And(smt.Eq(b.get('fowner', 'uusd'), pre.get('fowner', 'uusd')), smt.Eq(b.get(FM, 'uusd'), pre.get(FM, 'uusd'))))
+    I.check('position_untouched', get_position(I, 'u-a') is not None and smt.Eq(b.get(FM, LP1), pre.get(FM, LP1)))
+
 from . import lockdep   # noqa: E402,F401  (a lock refused by the farm manager fails the whole deposit)
